@@ -134,13 +134,23 @@ Definition tr_run (E : nat) (p : N) (sched : list (nat * nat)) (progs : nat -> n
      BC1     completion()      BC2  expected += expected_adjustment.load
      BC3     expected_adjustment.store(0)      BC4  phase.store(old_phase + 2)
      BPOLL   phase.load == token ? keep polling : return  (wait; a spin loop: stutter steps)
+     BSPIN   wait(token, busy_wait_timeout) / arrive_and_wait(busy_wait_timeout) with
+             busy_wait_timeout > 0 (operations OWaitBusy / OArriveWaitBusy; with a timeout <= 0 the
+             code takes the BPOLL path directly = OWait / OArriveWait): one iteration of
+             pika::util::detail::yield_while_timeout(poll, busy_wait_timeout, ..., false):
+               if (elapsed > timeout) return false;   -> the oracle says the timer has expired:
+                                                         fall back to yield_while(poll) = BPOLL
+               if (!poll()) return true;              -> phase.load != token: wait() returns
+               else spin_k(k);                        -> stay (bounded spin, no shared access)
+             The clock is not modelled: whether the timer has expired at an iteration is the
+             step's oracle (any number of polls, including none, may precede the expiry).
    Ghost: phno (number of completed phases), eph (the expected count of the current phase),
    compl (completions run in the current phase), drops (arrive_and_drop calls of the current
    phase), cstage/completer (who is inside the completion step, and where), the event log, and
    bad: the documented preconditions were violated (more than `expected` arrivals in a phase,
    an arrival carrying the phase value of an already completed phase, or arrive /
    arrive_and_drop entered while the completion step is in progress [thread.barrier]). *)
-Inductive bop := OArrive (n : nat) | OWait | OArriveWait | ODrop.
+Inductive bop := OArrive (n : nat) | OWait | OArriveWait | ODrop | OWaitBusy | OArriveWaitBusy.
 
 Inductive bev :=
 | EvArrive (t : nat) (k : nat)                       (* arrival started in phase instance k *)
@@ -157,7 +167,8 @@ Inductive bpc :=
 | BLoad (n : nat) (w : bool)                       (* about to load the phase *)
 | BArr (n : nat) (old : N) (k : nat) (w : bool) (sub : option tpc)  (* n arrivals left *)
 | BC (stage : nat) (n : nat) (old : N) (k : nat) (w : bool)
-| BPoll (old : N) (k : nat).
+| BPoll (old : N) (k : nat)
+| BSpin (old : N) (k : nat).                        (* inside the busy wait of wait(token, timeout > 0) *)
 
 Record blocal := { bprog : list bop; pcb : bpc; token : N; tokk : nat }.
 
@@ -176,11 +187,19 @@ Definition set_stage (g : bar) (st : nat) (c : option nat) : bar :=
   {| btree := btree g; phase := phase g; expected := expected g; adj := adj g; phno := phno g; eph := eph g;
      compl := compl g; drops := drops g; cstage := st; completer := c; bad := bad g; blog := blog g |}.
 
+(* the operation a thread executes stays at the head of its program until it returns; the
+   busy_wait_timeout argument of that call selects the first loop of wait() *)
+Definition busy_op (p : list bop) : bool :=
+  match p with OWaitBusy :: _ => true | OArriveWaitBusy :: _ => true | _ => false end.
+Definition wait_pc (p : list bop) (old : N) (k : nat) : bpc := if busy_op p then BSpin old k else BPoll old k.
+(* the oracle of a busy-wait iteration: has the timer expired? *)
+Definition timed_out (o : nat) : bool := negb (Nat.eqb o 0).
+
 (* after the arrive loop body: --update; loop or return old_phase *)
 Definition arr_next (l : blocal) (n : nat) (old : N) (k : nat) (w : bool) : blocal :=
   match n with
   | S (S m) => {| bprog := bprog l; pcb := BArr (S m) old k w None; token := token l; tokk := tokk l |}
-  | _ => if w then {| bprog := bprog l; pcb := BPoll old k; token := old; tokk := k |}
+  | _ => if w then {| bprog := bprog l; pcb := wait_pc (bprog l) old k; token := old; tokk := k |}
          else {| bprog := tl (bprog l); pcb := BIdle; token := old; tokk := k |}
   end.
 
@@ -209,6 +228,8 @@ Definition b_tstep (start : nat) (t : nat) (g : bar) (l : blocal) : bar * blocal
               cstage := cstage g; completer := completer g;
               bad := bad g || completing g; blog := blog g |}, setpc l (BLoad 1 false))
       | OWait :: _ => (g, setpc l (BPoll (token l) (tokk l)))
+      | OWaitBusy :: _ => (g, setpc l (BSpin (token l) (tokk l)))
+      | OArriveWaitBusy :: _ => (g, setpc l (BLoad 1 true))
       end
   | BLoad n w =>
       match n with
@@ -248,6 +269,11 @@ Definition b_tstep (start : nat) (t : nat) (g : bar) (l : blocal) : bar * blocal
       if N.eqb (phase g) old then (g, l)
       else (blog_add g (EvDepart t k (phno g)),
             {| bprog := tl (bprog l); pcb := BIdle; token := token l; tokk := tokk l |})
+  | BSpin old k =>
+      if timed_out start then (g, setpc l (BPoll old k))
+      else if N.eqb (phase g) old then (g, l)
+      else (blog_add g (EvDepart t k (phno g)),
+            {| bprog := tl (bprog l); pcb := BIdle; token := token l; tokk := tokk l |})
   end.
 
 Definition bar_init (E : nat) : bar :=
@@ -268,6 +294,7 @@ Definition bpc_site (l : blocal) : nat :=
   | BLoad _ _ => 904
   | BC _ _ _ _ _ => 905
   | BPoll _ _ => 909
+  | BSpin _ _ => 908
   end.
 Definition bpc_args (l : blocal) : nat * nat :=
   match pcb l with
